@@ -17,6 +17,7 @@ Act ==
       [] Ev.e = "pclose"  -> PeerClose(Ev.c, Ev.d)
       [] Ev.e = "timer"   -> Quiet(Ev.d)
       [] Ev.e = "tick"    -> Quiet(Ev.d)
+      [] Ev.e = "spin"    -> Quiet(Ev.d)
       [] Ev.e = "restart" -> Quiet(Ev.d)
       [] Ev.e = "xopen"   -> Quiet(Ev.d)      \* a connection of another service id opens / closes
       [] Ev.e = "xclose"  -> Quiet(Ev.d)
